@@ -15,7 +15,7 @@ size_t g_malloc_n, g_malloc_size, g_malloc_halign; bool g_malloc_zero;
 size_t g_free_n; void* g_free_p;
 void*  g_q;
 
-#define VC_BLK_OK (g_pad <= (VC_ALIGN > 4096 ? VC_ALIGN : 4096) && (g_pad % 16) == 0 && g_bsize <= ((size_t)1 << 24))
+#define VC_BLK_OK (g_pad <= (VC_ALIGN > 4096 ? VC_ALIGN : 4096) && (g_pad % 16) == 0 && g_bsize <= ((size_t)1 << 24) + (VC_ALIGN <= MI_BLOCK_ALIGNMENT_MAX ? VC_ALIGN : 0))
 #define VC_MALLOC_POST(size, zero, halign) \
   __CPROVER_ensures(g_malloc_n == __CPROVER_old(g_malloc_n) + 1 && g_malloc_size == (size) && g_malloc_zero == (zero) && g_malloc_halign == (halign)) \
   __CPROVER_ensures(__CPROVER_return_value == NULL ? g_q == NULL : (__CPROVER_is_fresh(g_blk, g_pad + g_bsize) && __CPROVER_return_value == g_blk + g_pad && g_q == __CPROVER_return_value)) \
